@@ -51,6 +51,9 @@ def configs(tier, seed):
     out.append(dict(layer='j1', biort='near_sym_a', magbias=0.01, colour=False, H=6, W=6, C=1, mode='symmetric', purify=True))
     out.append(dict(layer='j2', biort='near_sym_a', qshift='qshift_a', magbias=0.01, colour=False, H=8, W=8, C=1, mode='symmetric'))
     out.append(dict(layer='j2', biort='near_sym_b_bp', qshift='qshift_b_bp', magbias=0.01, colour=False, H=8, W=8, C=1, mode='symmetric'))
+    out.append(dict(layer='j2', biort='near_sym_a', qshift='qshift_a', magbias=0.01, colour=False, H=8, W=8, C=2, mode='symmetric'))
+    out.append(dict(layer='j1', biort='near_sym_a', magbias=1e-8, colour=False, H=4, W=4, C=1, mode='symmetric'))
+    out.append(dict(layer='j1', biort='near_sym_a', magbias=0.01, colour=False, H=2, W=2, C=17, mode='symmetric'))
     if tier == 'thorough':
         out.append(dict(layer='j2', biort='near_sym_a', qshift='qshift_a', magbias=0.01, colour=True, H=8, W=8, C=3, mode='symmetric'))
         out.append(dict(layer='j2', biort='near_sym_a', qshift='qshift_a', magbias=1.0, colour=False, H=6, W=7, C=1, mode='symmetric'))
